@@ -1974,7 +1974,7 @@ fn serde_binary_association(m: &mut Monitor, cfg: &Config) {
         Ok((j1, j2))
     }
     let mut rng = Rng::derive(cfg.seed, "c14-binassoc", 0);
-    let n = cfg.tier.pick(200, 2000);
+    let n = cfg.tier.pick(200, 20_000);
     for i in 0..n {
         let idx = if i < 16 { [(i / 4) as usize, (i % 4) as usize] } else { [rng.below(4), rng.below(4)] };
         let vr = i % 2 == 1;
@@ -2096,7 +2096,7 @@ pub fn run(cfg: Config) -> i32 {
     for l in &libs {
         m.gate(!l.homo.is_empty(), &format!("segment library {} could not be read", l.label));
     }
-    let (nsyn, nship, nperm, reps) = cfg.tier.pick((60, 25, 24, 2), (500, 150, 120, 3));
+    let (nsyn, nship, nperm, reps) = cfg.tier.pick((60, 25, 24, 2), (2000, 500, 120, 3));
     let mut gcs = Vec::new();
     for k in 0..nsyn {
         let nm = 1 + rng.below(3);
